@@ -818,6 +818,17 @@ class P(Prop):
             t.removeAnalyticalFeature(gk)
         return t
 
+    @staticmethod
+    def canon_seq(ret):
+        """the values returned 'at every observation': a list in the code; any sequence of numbers (tuple, array) is read
+        the same way - the property speaks of the values, not of the container"""
+        if isinstance(ret, (str, bytes, dict)):
+            return "obj"
+        try:
+            return canon_list(list(ret))
+        except TypeError:
+            return "obj"
+
     def state(self, t):
         names = t.getListAnalyticalFeatures()
 
@@ -1298,7 +1309,7 @@ class P(Prop):
                 status = err_kind(e)
             out = self.state(t)
             out["status"] = status
-            out["ret"] = canon_list(ret) if isinstance(ret, list) else (None if ret is None else "obj")
+            out["ret"] = None if ret is None else self.canon_seq(ret)
             return out
         if k == "rpn":
             return {"rpn": self.utils.makeRPN(case["s"])}
@@ -1342,7 +1353,7 @@ class P(Prop):
             if case["form"] == "agg":
                 out["ret"] = None if ret is None else canon(ret)
             else:
-                out["ret"] = canon_list(ret) if isinstance(ret, (list, tuple)) else None
+                out["ret"] = None if ret is None else self.canon_seq(ret)
             return out
         raise ValueError(k)
 
@@ -1542,8 +1553,8 @@ class P(Prop):
         if lhs is None:
             m = vec_matches(out["ret"], vals, call)
             return m or self.unchanged(env, out)
-        if out["ret"] is not None:
-            return "%s returned %s instead of None" % (call, out["ret"])
+        # what operate returns for a statement with '=' is not part of the property (the code returns None; the
+        # correspondence with the model compares it, the oracle does not)
         if lhs in ("x", "y", "z"):
             m = vec_matches(out[lhs], vals, "coordinate %s after %r" % (lhs, expr))
             return m or self.unchanged(env, out, except_coord=lhs)
